@@ -356,14 +356,81 @@ def run(ctx, rep):
                    how="folded entry equals the specification", key="%s/%s" % (name, k),
                    witness=None if ok else "folded %r, specification %r" % (got.get(k), want.get(k)), nontrivial=not ok)
     rep.floor("T5", 42)
+    # T7 dispatch partition / T7b no over-acceptance
+    check_dispatch(ctx, rep, m)
     # T9 ring queue discipline
     check_queue(ctx, rep, m)
     # T10 index code on the decoder side (shared with C16)
-    from rules.C16 import check_decoder_side
+    from rules.C16 import check_decoder_side, check_tables
+    check_tables(ctx, rep, "T10", "T10")
     check_decoder_side(ctx, rep, "T10", "T10")
     rep.floor("T10", 6)
     rep.analysed.update({"iteration_paths": len(its), "kinds": kinds, "derivation_function": D.qual,
                          "raise_paths": len(fr.raises)})
+
+
+def check_dispatch(ctx, rep, m):
+    from rules.C18 import dispatch_predicates, pred_automaton, fold_pred
+    from rules import symlang
+    from sa import reglang as RL
+    D = m["roles"]["D"]
+    tests = dispatch_predicates(ctx, D)
+    names = [n.id for t in tests for n in ast.walk(t) if isinstance(n, ast.Name)]
+    symvar = max(set(names), key=names.count)
+    loops = [n for n in D.node.body if isinstance(n, ast.While)]
+    cur = [n for n in loops[0].body if isinstance(n, ast.If) and n.orelse][0]
+    bodies = []
+    while True:
+        bodies.append(cur.body)
+        if len(cur.orelse) == 1 and isinstance(cur.orelse[0], ast.If):
+            cur = cur.orelse[0]
+        else:
+            bodies.append(cur.orelse)
+            break
+
+    def kind(body):
+        src = " ".join(unparse(x) for x in body)
+        for nm, k in (("process_branch_symbol", "branch"), ("process_ring_symbol", "ring"), ("process_atom_symbol", "atom")):
+            if nm in src:
+                return k
+        return "other"
+    kinds = [kind(b) for b in bodies]
+    autos = [pred_automaton(t, symvar) for t in tests]
+    tables = {"branch": m["tables"]["branch"], "ring": m["tables"]["ring"]}
+    # every table key reaches its own case
+    for tk, tab in tables.items():
+        bad = []
+        for key in sorted(tab):
+            taken = None
+            for i, t in enumerate(tests):
+                if fold_pred(ctx, D, t, symvar, key):
+                    taken = i
+                    break
+            if taken is None or kinds[taken] != tk:
+                bad.append((key, kinds[taken] if taken is not None else kinds[-1]))
+        rep.ob("T7", not bad, D.node, D, construct="%d %s-table keys reach the %s case" % (len(tab), tk, tk),
+               how="dispatch predicates folded on every key", nontrivial=True, key="dispatch/%s-keys" % tk,
+               witness=None if not bad else "%s symbol %s is dispatched to the %s case" % (tk, bad[0][0], bad[0][1]))
+    # atom symbols are not captured by an earlier case
+    dec = symlang.dec_atom(ctx)
+    for t, a, k in zip(tests, autos, kinds):
+        w = dec["dfa"].intersect(a).witness()
+        rep.ob("T7", w is None, t, D, construct="atom language vs dispatch test %s" % unparse(t), how="disjoint (language intersection empty)",
+               witness=None if w is None else "atom symbol %r is captured by the %s case" % (w, k), nontrivial=True,
+               key="dispatch/atom-disjoint/" + k)
+    # T7b: symbols accepted without any table / pattern look-up
+    spec_lit = RL.lit(SPEC.EPSILON)
+    for i, (t, a, k) in enumerate(zip(tests, autos, kinds)):
+        if k != "other":
+            continue
+        lang = a
+        for j in range(i):
+            lang = lang.minus(autos[j])
+        ok, w = lang.equals(spec_lit)
+        rep.ob("T7b", ok, t, D, construct="symbols accepted by the test %s alone" % unparse(t),
+               how="exactly the grammar's literal %s" % SPEC.EPSILON, nontrivial=True, key="eps-over-acceptance",
+               witness=None if ok else "symbols other than %s are accepted as [epsilon] without being in the grammar, e.g. %r "
+               "(decoder('[C]%s[C]') returns a molecule instead of raising DecoderError)" % (SPEC.EPSILON, w, w))
 
 
 def check_queue(ctx, rep, m):
